@@ -2,10 +2,13 @@
 """Monitor validation: apply each mutant to /repo, run the quick checks of the properties it is
 meant to break, record fired / not fired and the time to detect, undo the mutant.
 
-  selftest/run.py [--filter SUBSTR] [--list FILE.jsonl ...] [--all-props]
+  selftest/run.py [--filter SUBSTR] [--list FILE.jsonl ...] [--all-props] [--repo DIR]
 
 Results are appended to selftest/results.jsonl; `selftest/report.py` renders RESULTS.md.
-/repo is always restored (git checkout -- .) after each mutant, also on errors."""
+The tree is always restored (git checkout -- .) after each mutant, also on errors.
+With `--repo DIR` (a scratch `git worktree` of /repo outside /repo and /verif) the mutants are applied there
+and the checks are pointed at it through VERIF_REPO, so /repo, /verif/evidence and /verif/target are not
+touched and other runs can go on meanwhile; without it the mutants are applied to /repo itself."""
 import json
 import os
 import re
@@ -27,6 +30,7 @@ def main():
     flt = None
     lists = []
     all_props = False
+    repo = "/repo"
     i = 0
     while i < len(args):
         if args[i] == "--filter":
@@ -34,6 +38,9 @@ def main():
             i += 2
         elif args[i] == "--list":
             lists.append(args[i + 1])
+            i += 2
+        elif args[i] == "--repo":
+            repo = os.path.abspath(args[i + 1])
             i += 2
         elif args[i] == "--all-props":
             all_props = True
@@ -49,16 +56,24 @@ def main():
                 entries.append(json.loads(line))
     if flt:
         entries = [e for e in entries if flt in e["name"]]
-    assert sh("git -C /repo status --porcelain").stdout.strip() == "", "/repo is not clean"
+    if repo != "/repo":
+        head = sh("git -C /repo rev-parse HEAD").stdout.strip()
+        if not os.path.exists(repo):
+            assert sh(["git", "-C", "/repo", "worktree", "add", "-q", "--detach", repo, head]).returncode == 0
+        sh(["git", "-C", repo, "checkout", "-q", "--detach", head])
+        sh(["git", "-C", repo, "checkout", "-q", "--", "."])
+    assert sh(["git", "-C", repo, "status", "--porcelain"]).stdout.strip() == "", repo + " is not clean"
     env = dict(os.environ)
     env["VERIF_NO_SANITIZERS"] = env.get("VERIF_NO_SANITIZERS", "1")
     env["RUST_BACKTRACE"] = "0"
+    if repo != "/repo":
+        env["VERIF_REPO"] = repo
     for e in entries:
         diff = e.get("diff") or os.path.join(MUT, e["name"] + ".diff")
         props = sorted(propcfg_all()) if all_props else e["props"].split(",")
         rec = dict(name=e["name"], what=e.get("what", ""), at=time.strftime("%Y-%m-%dT%H:%M:%S"), results={})
         try:
-            r = sh(["git", "-C", "/repo", "apply", diff])
+            r = sh(["git", "-C", repo, "apply", diff])
             if r.returncode != 0:
                 rec["error"] = "patch does not apply: " + r.stderr[-300:]
                 print(json.dumps(rec), flush=True)
@@ -72,7 +87,7 @@ def main():
         except Exception as ex:  # noqa
             rec["error"] = repr(ex)
         finally:
-            sh("git -C /repo checkout -- .")
+            sh(["git", "-C", repo, "checkout", "--", "."])
         rec["fired"] = any(v["exit"] == 1 for v in rec["results"].values())
         with open(os.path.join(ROOT, "results.jsonl"), "a") as f:
             f.write(json.dumps(rec) + "\n")
